@@ -9181,13 +9181,6 @@ class SVG(Group):
                     if len(style) != 0:
                         style += ";"
                     style += styles[tag]
-                if SVG_ATTR_ID in attributes:  # Selector id #id
-                    svg_id = attributes[SVG_ATTR_ID]
-                    css_tag = "#%s" % svg_id
-                    if css_tag in styles:
-                        if len(style) != 0:
-                            style += ";"
-                        style += styles[css_tag]
                 if SVG_ATTR_CLASS in attributes:  # Selector class .class
                     for svg_class in attributes[SVG_ATTR_CLASS].split(" "):
                         css_tag = ".%s" % svg_class
@@ -9203,6 +9196,13 @@ class SVG(Group):
                             if len(style) != 0:
                                 style += ";"
                             style += styles[css_tag]
+                if SVG_ATTR_ID in attributes:  # Selector id #id
+                    svg_id = attributes[SVG_ATTR_ID]
+                    css_tag = "#%s" % svg_id
+                    if css_tag in styles:
+                        if len(style) != 0:
+                            style += ";"
+                        style += styles[css_tag]
                 # Split style element into parts; priority highest
                 if SVG_ATTR_STYLE in attributes:
                     if len(style) != 0:
